@@ -46,6 +46,11 @@ type Report struct {
 	Extra       map[string]any
 	mins        []minCount
 	seenKey     map[string]int
+	// KeyPrefix is prepended to the keys of obligations added while it is set
+	// (second architecture of the thorough tier).
+	KeyPrefix string
+	// NoOutput: evaluate only (mutation self-test subprocess): write no evidence.
+	NoOutput bool
 }
 
 type minCount struct {
@@ -62,6 +67,7 @@ func NewReport(prop, tier string, seed int) *Report {
 // Add records an obligation. Keys are made unique by a #n suffix when the
 // same construct occurs more than once in a function.
 func (r *Report) Add(o Obligation) {
+	o.Key = r.KeyPrefix + o.Key
 	r.seenKey[o.Key]++
 	if n := r.seenKey[o.Key]; n > 1 {
 		o.Key = fmt.Sprintf("%s#%d", o.Key, n)
@@ -156,10 +162,44 @@ func loadKnown() KnownFindings {
 }
 
 func stripDup(key string) string {
+	key = strings.TrimPrefix(key, "386:")
 	if i := strings.LastIndex(key, "#"); i > 0 {
 		return key[:i]
 	}
 	return key
+}
+
+// Failing returns the violated / undecided obligations (after anti-vacuity
+// minima), without writing anything.
+func (r *Report) Failing() []Obligation {
+	perRule := map[string]int{}
+	for _, o := range r.Obls {
+		if o.Status != OutOfRule {
+			perRule[o.Rule]++
+		}
+	}
+	var out []Obligation
+	for _, m := range r.mins {
+		if perRule[m.rule] < m.min {
+			out = append(out, Obligation{Rule: m.rule, Key: m.rule + "/anchor-missing/instance-count", Status: Violated})
+		}
+	}
+	known := loadKnown()
+	for _, o := range r.Obls {
+		if o.Status != Violated && o.Status != Undecided {
+			continue
+		}
+		isK := false
+		for _, f := range known.Known {
+			if f.Property == r.Property && (f.Key == o.Key || f.Key == stripDup(o.Key)) {
+				isK = true
+			}
+		}
+		if !isK {
+			out = append(out, o)
+		}
+	}
+	return out
 }
 
 // Finish applies anti-vacuity minima, matches violations against the
@@ -186,7 +226,7 @@ func (r *Report) Finish() int {
 	isKnown := func(o Obligation) *Finding {
 		for i := range known.Known {
 			f := &known.Known[i]
-			if f.Property == r.Property && (f.Key == o.Key || f.Key == stripDup(o.Key)) {
+			if f.Property == r.Property && (f.Key == o.Key || f.Key == stripDup(o.Key) || f.Key == strings.TrimPrefix(o.Key, "386:")) {
 				return f
 			}
 		}
